@@ -1,6 +1,8 @@
 #!/venv/bin/python
-"""Run a property's check against a seeded change: apply <dir>/patch.diff to /repo, run the demo and
-./check <ID> (quick, optionally thorough), undo the patch, record what happened in <dir>/meta.json.
+"""Run a property's check against a seeded change: apply <dir>/patch.diff to a scratch worktree of
+/repo's HEAD (so that checks running concurrently against /repo are not disturbed; VERDE_REPO points the
+check at it), run the demo and ./check <ID> (quick, optionally thorough), remove the worktree, record what
+happened in <dir>/meta.json.  With --in-repo the patch is applied to /repo itself and undone afterwards.
 
 usage: tools/seed_trial.py <seeded-dir> [--tier quick|thorough] [--also C07,C13]
 """
@@ -9,6 +11,7 @@ V = os.path.dirname(os.path.dirname(os.path.abspath(__file__)))
 d = os.path.abspath(sys.argv[1])
 tier = "quick"
 also = []
+in_repo = False
 args = sys.argv[2:]
 while args:
     a = args.pop(0)
@@ -16,11 +19,13 @@ while args:
         tier = args.pop(0)
     elif a == "--also":
         also = args.pop(0).split(",")
+    elif a == "--in-repo":
+        in_repo = True
 meta_p = os.path.join(d, "meta.json")
 meta = json.load(open(meta_p)) if os.path.exists(meta_p) else {}
 pid = meta.get("property") or os.path.basename(os.path.dirname(d))
 patch = os.path.join(d, "patch.diff")
-env = dict(os.environ, PYTHONPATH="/repo", PYTHONHASHSEED="0")
+TREE = "/repo"
 
 
 def run(cmd, **kw):
@@ -29,19 +34,25 @@ def run(cmd, **kw):
 
 
 assert run(["git", "-C", "/repo", "status", "--porcelain", "--untracked-files=no"])[1].strip() == "", "/repo not clean"
-res = {"ran_at": time.strftime("%Y-%m-%d %H:%M:%S"), "tier": tier}
+if not in_repo:
+    TREE = "/tmp/verde_trial_%d" % os.getpid()
+    rc, out = run(["git", "-C", "/repo", "worktree", "add", "--detach", TREE, "HEAD"])
+    assert rc == 0, out
+env = dict(os.environ, PYTHONPATH=TREE, PYTHONHASHSEED="0", VERDE_REPO=TREE,
+           VERIF_EVIDENCE_DIR=os.path.join(V, "build", "trial_evidence"))
+res = {"ran_at": time.strftime("%Y-%m-%d %H:%M:%S"), "tier": tier, "tree": "scratch worktree of /repo HEAD" if not in_repo else "/repo"}
 demo = os.path.join(d, "demo.py")
 if os.path.exists(demo):
-    res["demo_unchanged_rc"] = run(["/venv/bin/python", demo], env=env, cwd="/repo")[0]
-rc, out = run(["git", "-C", "/repo", "apply", patch])
+    res["demo_unchanged_rc"] = run(["/venv/bin/python", demo], env=env, cwd=TREE)[0]
+rc, out = run(["git", "-C", TREE, "apply", patch])
 assert rc == 0, out
 try:
     if os.path.exists(demo):
-        res["demo_patched_rc"] = run(["/venv/bin/python", demo], env=env, cwd="/repo")[0]
+        res["demo_patched_rc"] = run(["/venv/bin/python", demo], env=env, cwd=TREE)[0]
     res["checks"] = {}
     for p in [pid] + also:
         t0 = time.time()
-        rc, out = run([os.path.join(V, "check"), p, "--tier", tier], cwd=V)
+        rc, out = run([os.path.join(V, "check"), p, "--tier", tier], cwd=V, env=env)
         lines = [l for l in out.splitlines() if l.startswith("VIOLATION") or l.startswith("KNOWN-FINDING")]
         res["checks"][p] = {"exit": rc, "violation_lines": lines[:5], "wall_s": round(time.time() - t0, 1),
                             "caught": rc != 0 and any(l.startswith("VIOLATION") for l in lines),
@@ -56,7 +67,10 @@ try:
                     res["checks"][p]["replay_excerpt"] = json.dumps(r, default=str)[:1500]
                 break
 finally:
-    subprocess.run(["git", "-C", "/repo", "checkout", "--", "."], check=True)
+    if in_repo:
+        subprocess.run(["git", "-C", "/repo", "checkout", "--", "."], check=True)
+    else:
+        subprocess.run(["git", "-C", "/repo", "worktree", "remove", "--force", TREE], check=True)
     subprocess.run(["rm", "-rf", os.path.join(V, "replays")])
 meta.setdefault("trials", []).append(res)
 json.dump(meta, open(meta_p, "w"), indent=1)
